@@ -19,6 +19,16 @@ CLAIMED = {
         note=BASE_NOTE + 'float32 log in the exponent rule is tolerated at exact powers of two; the ARL file-layout clause is not modelled yet.',
         technique='Lean 4 proof (induction over rows, linarith over Q) + model/implementation correspondence',
         design='§7 C20'),
+    'C17': dict(
+        text=('Lean theorems over Q about the executable model of getinterpweights (columns sum to one, '
+              'non-negative without extrapolation, linear profiles reproduced exactly, unit vectors at source '
+              'nodes) and of sigma2coeff/interpSigma(conserve) (every source layer covered exactly once when top '
+              'and bottom are shared, thickness-weighted column sums equal target thicknesses, column mass '
+              'preserved, constants preserved), proved for all grids by induction; exact correspondence of the '
+              'model with scipy/numpy results on dyadic grids every run.'),
+        note=BASE_NOTE + 'linear-exactness theorem is stated for ascending sources (descending = reversed; sum/non-negativity proved for both); application along an axis is exercised through interpSigma only.',
+        technique='Lean 4 proof (structural induction, telescoping sums, linarith/field_simp over Q) + model/implementation correspondence',
+        design='§7 C17'),
 }
 
 NOT_YET = {}
